@@ -62,10 +62,18 @@ def ref_env_with(env, **defs):
 
 
 def rat_equal(x, y):
+    """equality of two normal forms.  Identical normal forms are equal; normal forms that differ are reported as different
+    only when they also differ numerically at a sample point (xfabsa/numeval.py) -- when they agree there, the identity is
+    beyond the normaliser and the question is undecided (an analysis error, never a FAIL)"""
     try:
-        return scalar(x).equals(scalar(y))
+        sx, sy = scalar(x), scalar(y)
     except core.AnalysisError:
         return False
+    if sx.equals(sy):
+        return True
+    from . import numeval
+    r = numeval.decide_equal(sx, sy, numeval.default_domain(sx, sy))
+    return r is True
 
 
 def short(r, n=140):
